@@ -25,6 +25,27 @@ check('C01', E3,
       'bounded alphabet / stream length / chunk size <= 2; scripted read_nonblocking in place of a transport; snapshot = (_before,_buffer) values, validated by live replay of every state',
       'DESIGN.md 3 C01')
 
+check('C02', E3,
+      'complete enumeration (nested loops, no sampling) of pattern lists x streams x all splittings x windows x preceding-call variants on the real expect/expect_exact; independent re/str.find oracle at every successful return',
+      'Every ordered pattern list up to length 3 from collision-rich pools with EOF/TIMEOUT at every position, every stream over {a,b} up to the bound, every splitting, is executed; genuineness, leftmost and lowest-index are judged against independent searches of the searchable text.',
+      'pattern pools / alphabet / length bounds; scripted read_nonblocking',
+      'DESIGN.md 3 C02')
+check('C03', E3,
+      'explicit-state BFS to fix-point of the product (real incremental search) x (naive full re-search reference), nested DFS over environment answers, per-call changing W and pattern list',
+      'For every reachable buffer state (incl. trimmed search buffers left by earlier calls), every call and every answer sequence the implementation must return at the same read with the same index/before/after/buffer as the naive procedure.',
+      'bounded alphabet / stream length; naive reference in mc/refs.py (re.search / str.find on the last W characters)',
+      'DESIGN.md 3 C03')
+check('C04', E3 + ' (part A); ' + E2 + ' (part B)',
+      'complete table enumeration of marker placement x entry point x pending/received text x ending x window x mode, with follow-up calls; part B enumerates transports x peer endings under the controlled environment',
+      'Every cell of the finite table is executed on the real code and judged (exact exception class, index, before/after/match fields, pending occurrence wins, EOF sticky, TIMEOUT consumes nothing).',
+      'table dimensions as listed in evidence bounds',
+      'DESIGN.md 3 C04')
+check('C20', E3,
+      'complete table enumeration of pattern x all 32 flag subsets x form x mode x ignorecase x stream x splitting with a differential oracle against the native form; invalid objects at every list position',
+      'Every accepted form of every pattern in the grammar is run on scripted streams and must give the same (index, before, after, span, groups) as the native form; every invalid object must raise TypeError with zero reads.',
+      'pattern grammar and stream pool are finite and listed; other regex features not covered',
+      'DESIGN.md 3 C20')
+
 NOT_BUILT = {}
 
 
